@@ -159,6 +159,17 @@ def _shared_aliases(model, rfuncs, sc):
     return al
 
 
+def _globals_of(fi):
+    g = getattr(fi, '_dt_globals', None)
+    if g is None:
+        g = set()
+        for n in own_nodes(fi.node):
+            if isinstance(n, ast.Global):
+                g.update(n.names)
+        fi._dt_globals = g
+    return g
+
+
 def shared_writes(model):
     """-> list of dict(fi, node, target, kind) for every store, in render
     code, to an attribute / item of a shared object."""
@@ -225,6 +236,18 @@ def shared_writes(model):
                                 out.append(dict(fi=fi, node=n,
                                                 target=norm(x),
                                                 kind='class attribute'))
+                            elif x.value.id in fi.module.imports and not \
+                                    model.local_defs(fi, x.value.id) and \
+                                    (not r or r[0] in ('module', 'ext')):
+                                # `import m` / `from . import m`; m.x = v
+                                out.append(dict(
+                                    fi=fi, node=n, target=norm(x),
+                                    kind='attribute of a module '
+                                         '(process-wide state)'))
+                    if isinstance(x, ast.Name) and x.id in _globals_of(fi):
+                        out.append(dict(fi=fi, node=n, target=x.id,
+                                        kind='module-level name (global '
+                                             'statement)'))
                     if isinstance(x, ast.Subscript):
                         base = x.value
                         if isinstance(base, ast.Attribute) and \
